@@ -14,6 +14,67 @@ MINE = ('not_exact', 'upload_set', 'repeat_uploaded_payload', 'table_dup', 'fami
 CLI_MINE = ('exception', 'hang', 'snapshot_unreadable', 'snapshot_objects', 'snapshot_name', 'upload_set', 'repeat_uploaded_payload', 'table_dup', 'not_exact', 'shared_secrets_differ', 'independent_secrets_equal')
 
 
+def unchanged_data_probe(ctx, rep, n):
+    """"A snapshot of unchanged data transfers no chunk payload" for file sizes at the edges of the chunker's look-ahead: chunk lengths
+    that are not multiples of the alignment, a first file of max_length .. max_length+3 bytes (or a few bytes around multiples of it)
+    followed by more data, the same files snapshotted by two sessions.  With the recompiled native chunker the memory behind every
+    chunking buffer is a pattern that differs between the two sessions, so cuts that depend on anything but the data show up as payload
+    transferred for unchanged data."""
+    import asyncio
+    import shutil
+    from pathlib import Path
+    from harness.memstore import MemBackend
+    from harness.repo_hist import quiet
+    from replicat.repository import Repository
+    try:
+        import _replicat_adapters as A
+        guarded = hasattr(A, 'GUARD_LEN')
+    except ImportError:
+        A, guarded = None, False
+    rng = ctx.rng
+    for trial in range(n):
+        mn, mx = rng.choice([(12, 61), (8, 35), (5, 33), (16, 62), (9, 127), (20, 101)])
+        wd = Path(ctx.scratch) / f'unchanged-{trial}'
+        shutil.rmtree(wd, ignore_errors=True)
+        (wd / 'src').mkdir(parents=True)
+        k = rng.choice([1, 1, 2, 3])
+        first = rng.randbytes(k * mx + rng.choice([0, 1, 2, 3]) - rng.choice([0, 0, 0, 1]))
+        (wd / 'src' / 'a.bin').write_bytes(first)
+        (wd / 'src' / 'b.bin').write_bytes(rng.randbytes(rng.randint(mx, 6 * mx)))
+        if rng.random() < 0.4:
+            (wd / 'src' / 'c.bin').write_bytes(rng.randbytes(mx + rng.choice([0, 1, 2])))
+        be = MemBackend()
+        out = {}
+
+        async def go():
+            settings = {'chunking': {'min_length': mn, 'max_length': mx}, 'hashing': {'name': 'blake2b', 'length': 16}, 'encryption': None}
+            await Repository(be, concurrent=2, quiet=True, cache_directory=None).init(settings=settings)
+            for session in range(2):
+                if guarded:
+                    A.GUARD = bytes([0x11 + 0x5D * session + trial % 7]) + rng.randbytes(6)
+                r = Repository(be, concurrent=2, quiet=True, cache_directory=None)
+                await r.unlock()
+                before = len([c for c in be.calls if c[0] == 'upload_stream'])
+                res = await r.snapshot(paths=[wd / 'src'])
+                out[session] = (len([c for c in be.calls if c[0] == 'upload_stream']) - before, [bytes(d) for d in res.chunks])
+            ref = {r._chunk_digest_to_location(d) for s_ in out.values() for d in s_[1]}
+            out['extra'] = {x for x in be.objects if x.startswith('data/')} - ref
+        with quiet()[0], quiet()[1]:
+            asyncio.run(asyncio.wait_for(go(), 120))
+        if guarded:
+            A.GUARD = None
+        shutil.rmtree(wd, ignore_errors=True)
+        rep.case(('unchanged-data', mn, mx, len(first)), nontrivial=True)
+        rep.count('unchanged_data_probe')
+        if out[1][0] or out[0][1] != out[1][1]:
+            rep.violations.append({'what': f'snapshot of unchanged data (chunk lengths {mn}/{mx}, first file {len(first)} bytes) by a second session transferred '
+                                           f'{out[1][0]} chunk payload(s); the chunk tables of the two snapshots {"differ" if out[0][1] != out[1][1] else "are equal"}',
+                                   'signature': {'kind': 'repeat_uploaded_payload', 'probe': 'unchanged_data'}, 'replay': {'probe': 'unchanged_data'}})
+        elif out['extra']:
+            rep.violations.append({'what': f'{len(out["extra"])} chunk object(s) no snapshot references after two snapshots of the same data',
+                                   'signature': {'kind': 'not_exact', 'probe': 'unchanged_data'}, 'replay': {'probe': 'unchanged_data'}})
+
+
 def _run(ctx, n, nops, rep, concurrent=None):
     seeds = [ctx.rng.randint(0, 2 ** 31) for _ in range(n)]
     repo_hist.run_batch(seeds, ctx.scratch, rep, nops=nops, weights=WEIGHTS, checks=CHECKS,
@@ -24,6 +85,7 @@ def _run(ctx, n, nops, rep, concurrent=None):
     cli_hist.linked_shards_probe(ctx, rep, CLI_MINE + ('referenced_chunk_missing', 'snapshot_not_listed', 'gc_incomplete'))
     # "the chunk objects are precisely the distinct chunks referenced" also after a delete / clean that met a refusing or failing
     # file system: no listed snapshot without its chunks, no unreferenced chunk after a command that reported success
+    unchanged_data_probe(ctx, rep, ctx.scale(150, 1500))
     cli_hist.refused_removal_probe(ctx, rep, CLI_MINE + ('referenced_chunk_missing', 'gc_incomplete'))
     cli_hist.scan_fault_probe(ctx, rep, CLI_MINE + ('referenced_chunk_missing', 'gc_incomplete'))
     # and over the remote adapters (B2 by bucket name and by bucket id, S3-compatible) against in-memory fake services
@@ -48,6 +110,12 @@ def replay(ctx, obj):
                              if (obj.get('replay') or {}).get('probe') else CLI_MINE)
     if rc is not None:
         return rc
+    if (obj.get('replay') or {}).get('probe') == 'unchanged_data':
+        rep = Report(rule=RULE)
+        unchanged_data_probe(ctx, rep, 600)
+        for v in rep.violations:
+            print('VIOLATION-REPRODUCED', v['what'])
+        return 1 if rep.violations else 0
     if (obj.get('replay') or {}).get('probe') == 'remote':
         rep = Report(rule=RULE)
         remote_hist.remote_probe(ctx, rep, ('exception', 'repeat_uploaded_payload', 'not_exact'), deployments=[obj['replay']['deployment']])
